@@ -56,7 +56,7 @@ def model_check(ctx):
     else:
         runs += [
             dict(STARTS="{0,1}", SIZES="{0,4,5}", MAXIDXS="{0,3}", BATCHES="{1,2,3}", NFS="{1,2}", NMS="{1,2}",
-                 KPS="{3,4}", FAULTS=2),
+                 KPS="{4}", FAULTS=2),
             dict(STARTS="{0}", SIZES="{5}", MAXIDXS="{0}", BATCHES="{2}", NFS="{3}", NMS="{2}", KPS="{4}", FAULTS=2),
             dict(STARTS="{1}", SIZES="{6}", MAXIDXS="{0}", BATCHES="{2}", NFS="{2}", NMS="{3}", KPS="{4}", FAULTS=2),
             dict(STARTS="{0}", SIZES="{4}", MAXIDXS="{0}", BATCHES="{1,3}", NFS="{2}", NMS="{2}", KPS="{2}", FAULTS=3),
